@@ -4,7 +4,9 @@ import os
 
 def pytest_configure(config):
     from rv import suite_monitors
-    suite_monitors.install(set(os.environ.get("RV_SUITE_PIDS", "C04,C08,C11").split(",")))
+    which = set(os.environ.get("RV_SUITE_PIDS", "C04,C08,C11").split(","))
+    suite_monitors.install(which)
+    suite_monitors.install_more(which)
 
 
 def pytest_sessionfinish(session, exitstatus):
